@@ -23,8 +23,12 @@ CFG = {
                   "once with a non-deadline error; an armed deadline fails writes; SetWriteDeadline(zero) does not fail); the "
                   "scripted socket is used both as a plain net.PacketConn and as an AddrPortReaderWriter (the interface "
                   "asAddrPortReaderWriter accepts besides the concrete *net.UDPConn), so both write paths of the mux "
-                  "(writeToContext and writeToUDPAddrPort) run against the one model; a real *net.UDPConn is not exercised. Not built: S/T tie of the six CAS functions (loops are outside the "
-                  "translator's subset); the bit constants are compared at run time.",
+                  "(writeToContext and writeToUDPAddrPort) run against the one model; a real *net.UDPConn is not exercised. T tie of the six CAS functions of the write-abort protocol "
+                  "(startWriteContext, finishWrite, abortWrite, setWriteDeadlineArmed, clearWriteDeadlineAfterAbort, clearWriteAbortState): ONE "
+                  "iteration of each load/test/CAS loop is regenerated on every run (loop mode of the translator) and proved, for every count "
+                  "below 2^62 and both flag bits, to take the model's branch and to CAS in / store the word of the model's successor state "
+                  "(C13_code_state_word, C13_code_iterations, C13_code_writer_steps, C13_code_aborter_steps); that the loops retry until a "
+                  "CAS succeeds, and the callers writeToContext / writeToUDPAddrPort, are tied by A only.",
     "components": [
         {"component": "shared", "require_stats": {"shared.ops.abort_with_open_sibling": 10, "shared.ops.write_through_WriteToAddrPort": 5, "shared.sessions.refusing_connection_boundary": 5}, "session_start": "new", "trivial_regex": r"^(skip|bad-.*)$", "shrink_s": 30},
         {"component": "writeabort", "require_stats": {"writeabort.ev.socket_WriteToAddrPort": 50, "writeabort.shape.both_write_paths_in_one_run": 20, "writeabort.hist.with_arming": 50}, "trivial_regex": r"^(bad-.*)$", "timeout_quick": 300, "timeout_thorough": 1500, "shrink_s": 5},
@@ -45,7 +49,9 @@ CFG = {
             "netip.AddrPort path, socket outcomes ok / error / blocks until deadline or released, 0-3 aborters, scripted "
             "SetWriteDeadline(now) failures in half of the runs, GOMAXPROCS in {1,2,NCPU}); every quiescent state is probed by a "
             "net.Addr write of one user and an AddrPort write of the other; one history per line; non-trivial = every recorded history.",
-    "translated": [],
+    "translated": ["UDPMuxDefault.startWriteContext", "UDPMuxDefault.finishWrite", "UDPMuxDefault.abortWrite",
+                   "UDPMuxDefault.setWriteDeadlineArmed", "UDPMuxDefault.clearWriteDeadlineAfterAbort",
+                   "UDPMuxDefault.clearWriteAbortState"],
     "trusted_base": ["sync/atomic operations are sequentially consistent (Go memory model)",
                      "OS socket deadline semantics are those of the scripted socket (harness/inpkg/zz_verif_writeabort_test.go)",
                      "load+CAS loop iteration modelled as one atomic step at the CAS (failed CAS = stutter)"],
